@@ -20,7 +20,7 @@ use bitcoin::Network;
 use serde_json::json;
 use std::collections::BTreeSet;
 
-pub const CHAIN_PROPS: &[&str] = &["C01", "C02", "C03", "C04", "C05", "C06", "C07", "C08", "C09", "C10", "C11", "C17", "C37"];
+pub const CHAIN_PROPS: &[&str] = &["C01", "C02", "C03", "C04", "C05", "C06", "C07", "C08", "C09", "C10", "C11", "C16", "C17", "C37"];
 
 fn scenario(prop: &str, ctx: &Ctx, rng: &mut Rng) -> Scenario {
   let thorough = ctx.thorough();
@@ -79,6 +79,19 @@ fn scenario(prop: &str, ctx: &Ctx, rng: &mut Rng) -> Scenario {
       gencfg.w_rune = 8;
       gencfg.w_reveal = if index.inscriptions { 1 } else { 0 };
     }
+    "C16" => {
+      // every combination of the five index switches, every generator class
+      // including the adversarial one, both UTXO paths (hook H5)
+      index = IndexCfg::from_bits(rng.below(32) as u32);
+      index.commit_interval = Some(*rng.pick(&[1usize, 3, 5000]));
+      gencfg.w_transfer = 3;
+      gencfg.w_reveal = 4;
+      gencfg.w_rune = 4;
+      gencfg.w_adversarial = 5;
+      gencfg.dup_coinbase_permille = if !index.inscriptions && !index.runes && rng.chance(1, 2) { 40 } else { 0 };
+      blocks = if thorough { rng.range(40, 150) as u32 } else { rng.range(20, 60) as u32 };
+      audit_every = *rng.pick(&[1u32, 2, 5, 1000]);
+    }
     "C37" => {
       index.inscriptions = true;
       index.runes = rng.chance(3, 4);
@@ -112,6 +125,12 @@ pub fn run(ctx: &Ctx, rep: &mut Report) {
     let _ = std::fs::remove_dir_all(&dir);
     std::fs::create_dir_all(&dir).unwrap();
     let node = Node::new(sc.network);
+    // C16 also exercises the node-fetch path for input values (hook H5)
+    let first_height = if sc.prop == "C16" && rng.chance(1, 2) { Some(rng.range(5, 25) as u32) } else { None };
+    ord::verif::set_first_heights(first_height, first_height);
+    if first_height.is_some() {
+      rep.count("chains_with_late_first_inscription_height");
+    }
     let wants_events = matches!(sc.prop, "C09" | "C37");
     let mut collector = None;
     let opened = if wants_events {
@@ -218,6 +237,11 @@ pub fn run(ctx: &Ctx, rep: &mut Report) {
             }
           }
         }
+        "C16" => {
+          rep.eval();
+          rep.count("updates_ok");
+          rep.count("audits");
+        }
         "C08" => chain_runes::audit_c08(&run, rep),
         "C09" => {
           chain_runes::audit_c09(&run, rep);
@@ -279,6 +303,7 @@ pub fn run(ctx: &Ctx, rep: &mut Report) {
     }
     drop(run);
     drop(collector);
+    ord::verif::set_first_heights(None, None);
     let _ = std::fs::remove_dir_all(&dir);
   }
 }
